@@ -44,7 +44,7 @@ def run_suite(tmp):
     r = subprocess.run([PY, "-m", "pytest", "-q", "-p", "no:cacheprovider", "--timeout=900", "-x", "--deselect", "tests/test_ovld.py::test_conform", "--deselect", "tests/test_ovld.py::test_conform_2", "--deselect", "tests/test_ovld.py::test_display", "--deselect", "tests/test_ovld.py::test_display_more", "--deselect", "tests/test_ovld.py::test_doc", "--deselect", "tests/test_ovld.py::test_doc2", "--deselect", "tests/test_ovld.py::test_method_doc"], cwd=tmp, env=env, capture_output=True, text=True)
     tail = r.stdout.strip().splitlines()[-1] if r.stdout.strip() else r.stderr[-200:]
     m = re.search(r"(\d+) passed", tail)
-    return (int(m.group(1)) if m else 0), ("failed" in tail or "error" in tail), tail
+    return (int(m.group(1)) if m else 0), bool(re.search(r"\b\d+ (failed|error)", tail)), tail
 
 
 def run_demo(demo, srcdir):
